@@ -1255,3 +1255,37 @@ def _rw_gen(rng):
 
 native(f"{S}:RowWiseModifiedBisectionSearch.search", _rw_check, _rw_gen, None,
        bound="real RowWise search() with a stubbed field generator (count ~ area/spacing^2) and a monotone table-driven oracle: nothing fits / threshold between the bounding fields / borehole-removal arm incl. 'only the full sparsest field passes'; both policies; with/without perimeter ratio")
+
+
+# ---- RowWiseModifiedBisectionSearch.calculate_excess: the same oracle-facing step as Bisection1D's (its own method body) ----------------------------
+def RWs():
+    sim = SimP(NoneT())
+    return ObjOf(f"{S}:RowWiseModifiedBisectionSearch", sim_params=sim, ghe=GHEs(), searchTracker=ListOf(Row), V_flow=Real, flow_type=Int, bhe_type=Int, log_time=OpaqueOf("list"),
+                 hourly_extraction_ground_loads=OpaqueOf("list"), fieldType=Str, load_years=OpaqueOf("list"), method=Int,
+                 fluid=AliasOf(lambda P: None), borehole=AliasOf(lambda P: None))
+
+
+def _rw_self():
+    o = RWs()
+    del o.fields["fluid"], o.fields["borehole"]
+    return o
+
+
+contract(f"{S}:RowWiseModifiedBisectionSearch.initialize_ghe", dict(self=_rw_self(), coordinates=Field, h=Real, field_specifier=Str),
+         name=f"{S}:RowWiseModifiedBisectionSearch.initialize_ghe#caller",
+         ensures=[("ghe-rebuilt", lambda E: And(_ghe_at(E, E.coordinates.id, E.h), E.self.ghe.g_cfg == CFGRW(E.self.flow_type, E.self.V_flow, E.coordinates.id, E.coordinates.len, E.h),
+                                                E.self.ghe.sim_params.raw() is E.self.sim_params.raw()))],
+         assigns=[(lambda P: (P.self, "ghe"), _ghe_fresh_rw())] if False else [(lambda P: (P.self, "ghe"), GHEfresh())], returns=NoneT(),
+         notes="caller view of the body verified in C20 (flow.py): a new GHE for exactly this field and height; its configuration is named by the arguments (A-DET)").applies = (
+             lambda env: "searchTracker" in env["self"].fields and "fluid" not in env["self"].fields)
+CFGRW = z3.Function("CFG_ROWWISE", z3.IntSort(), z3.RealSort(), z3.IntSort(), z3.IntSort(), z3.RealSort(), z3.IntSort())
+contract(f"{S}:RowWiseModifiedBisectionSearch.calculate_excess", dict(self=_rw_self(), coordinates=Field, h=Real, field_specifier=Str),
+         requires=[("at-least-one-borehole", lambda E: E.coordinates.len >= 1)],
+         ensures=[("excess-of-the-rebuilt-ghe", lambda E: E.result == OBJ(E.self.ghe.g_cfg, E.h)),
+                  ("ghe-rebuilt-for-this-field-and-height", lambda E: _ghe_at(E, E.coordinates.id, E.h)),
+                  ("log-row-appended", lambda E: And(E.self.searchTracker.len == E.old.self.searchTracker.len + 1,
+                                                     row_ok(E, E.self.searchTracker[E.old.self.searchTracker.len]),
+                                                     E.self.searchTracker[E.old.self.searchTracker.len][1] == E.result)),
+                  ("log-prefix-kept", lambda E: forall(1, lambda j: Implies(And(0 <= j, j < E.old.self.searchTracker.len),
+                                                                             And(*[E.self.searchTracker[j][c] == E.old.self.searchTracker[j][c] for c in (1, 2, 3)]))))],
+         assigns=[(lambda P: (P.self, "ghe"), GHEfresh()), (lambda P: (P.self, "searchTracker"), ListOf(Row))], returns=Real)
